@@ -18,7 +18,7 @@ Mirrored Qt 5.15 QDom facts (probed with `framing --mode probe`):
   and mismatched end tags are errors; after the root element only white space may follow.
 
 Canonical form of an element (same as harness/cxx/framing.cpp `canonElem`):
-  `<local{nsURI} a="v" …>children</>`  attributes sorted by name, values and text with & < > " escaped.
+  `<local{nsURI} a{nsURI}="v" …>children</>`  attributes sorted by `a{nsURI}`, values and text with & < > " escaped.
 Total functions (fuel = input length), no proofs, no Mathlib.
 -/
 import Qx.Model.C03Framing
@@ -125,9 +125,17 @@ def pushDecls (scope : List (Str × Str)) (attrs : List (Str × Str)) : List (St
     else match splitQName a.1 with
       | (p, l) => if p = "xmlns".toList then (l, a.2) :: sc else sc) scope
 
-def plainAttrs (attrs : List (Str × Str)) : List (Str × Str) :=
+def xmlNs : Str := "http://www.w3.org/XML/1998/namespace".toList
+
+/-- namespace of an attribute: none for an un-prefixed one, the binding of its prefix otherwise (`xml` is predeclared) -/
+def attrNs (scope : List (Str × Str)) (q : Str) : Str :=
+  let p := (splitQName q).1
+  if p.isEmpty then [] else if p = "xml".toList then xmlNs else lookupNs scope p
+
+/-- the attributes that are not namespace declarations, as `local{nsURI}` ↦ value (`scope` = bindings in force on the element) -/
+def plainAttrs (scope : List (Str × Str)) (attrs : List (Str × Str)) : List (Str × Str) :=
   (attrs.filter fun a => !(a.1 = "xmlns".toList || (splitQName a.1).1 = "xmlns".toList)).map
-    fun a => ((splitQName a.1).2, a.2)
+    fun a => ((splitQName a.1).2 ++ '{' :: attrNs scope a.1 ++ ['}'], a.2)
 
 def allSpace (s : Str) : Bool := s.all Qx.C03.isSpace
 
@@ -149,10 +157,10 @@ mutual
           let scope' := pushDecls scope attrs
           let pl := splitQName q
           let ns := lookupNs scope' pl.1
-          if selfClose then some (Node.elem pl.2 ns (plainAttrs attrs) [], r2)
+          if selfClose then some (Node.elem pl.2 ns (plainAttrs scope' attrs) [], r2)
           else
             match parseContent f scope' q r2 [] [] with
-            | some (kids, r3) => some (Node.elem pl.2 ns (plainAttrs attrs) kids, r3)
+            | some (kids, r3) => some (Node.elem pl.2 ns (plainAttrs scope' attrs) kids, r3)
             | none => none
   /-- content of the element whose qualified name is `q`, up to and including its end tag -/
   def parseContent : Nat → List (Str × Str) → Str → Str → List Node → Str → Option (List Node × Str)
